@@ -2,12 +2,12 @@ CONSTANTS
   STs = {"unary", "client", "server", "half", "full"}
   MaxReqs = 3
   MaxResp = 3
-  ReqHdrNames = {"none", "multi"}
-  HdrNames = {"none", "rep", "multi"}
+  ReqHdrNames = {"none", "mixed", "multi"}
+  HdrNames = {"none", "rep", "bin", "multi"}
   ErrNames = {"none", "code", "msg", "full"}
   DataVariants = {"plain", "e1", "eL"}
   Decoys = {"none", "def", "flag", "both"}
   WFOnly = TRUE
 SPECIFICATION Spec
 INVARIANTS TypeOK Agrees ThreeWayInv ThreeWayDecl Progress OrderFull OrderHalf OneInFlight Unread
-PROPERTY Termination
+PROPERTIES Termination Monotone NoReceiveAfterEnd
